@@ -278,7 +278,7 @@ PROPS['C09'] = dict(
 
 # ---------------------------------------------------------------- expression programs (C05, C06, C07)
 import subprocess as _subprocess, sys as _sys
-CAT_N = 10
+CAT_N = 11
 def cat_units(prefix, pid, qscale, tscale):
     us = []
     for k in range(CAT_N):
@@ -341,8 +341,8 @@ def gen_unit(prefix, pid, n_units=16, per=6, scale=2.0):
 import re as _re
 
 EXPR_RULE = ('expression programs: operator expression TYPES are sampled by generating C++ source from the grammar E ::= I | X<n> | Dx<n> | SplineOperator{f_k} | E*E | E+E | E-E | c*E | E*c | E/c | E+c | c+E | E-c | c-E | -E with c a T-valued or an int literal '
-             '(depth <= 5, output order <= 6, rvalue-built trees only - the form the library compiles and every caller uses). Quick: the committed catalogue of 60 programs (16 fixed members + 12 extra members: X<4..7>, Dx<5>, and unsigned / size_t / long / unsigned short scalars in every scalar position: scalar product pair, commutator, both associativity forms, the four example Hamiltonians, int division, every scalar production; 32 generated covering every production with both scalar types); '
-             'thorough adds 96 fresh expression types from VERIF_SEED. Per expression: random grids (2..9 points, incl. far from origin / non-uniform), operand orders 0..3, factor splines of orders 0,1,2 placed relative to the operand by constructed class '
+             '(depth <= 5, output order <= 6, rvalue-built trees only - the form the library compiles and every caller uses). Quick: the committed catalogue of 66 programs (16 fixed members + 18 extra members: X<4..7>, Dx<5>, unsigned / size_t / long / unsigned short scalars in every scalar position, unary minus and subtraction applied directly to nodes scaled by an unsigned scalar: scalar product pair, commutator, both associativity forms, the four example Hamiltonians, int division, every scalar production; 32 generated covering every production with both scalar types); '
+             'thorough adds 96 fresh expression types from VERIF_SEED (30% of their non-rational scalar literals are unsigned / size_t / long / unsigned short). Per expression: random grids (2..9 points, incl. far from origin / non-uniform), operand orders 0..3, factor splines of orders 0,1,2 placed relative to the operand by constructed class '
              '(covers, strictly inside, ENDS inside, starts inside, touching, gap, interval-free). Library instantiated with the exact scalar Q. ')
 PROPS['C05'] = dict(
     units=cat_units('apply', 'C05', 1.0, 6.0) + [et_unit('C05', 'et-operators'), gen_unit('apply', 'C05')],
